@@ -21,7 +21,56 @@ func pow10(n int) *big.Int { return new(big.Int).Exp(big.NewInt(10), big.NewInt(
 
 type G struct{ r *rand.Rand }
 
-func (g *G) pick(n int) int { return g.r.Intn(n) }
+// hints: integer literals of the functions whose generated text changed (set by ./check when a tie is broken).
+// The generators steer a share of their values at them: words, coefficients whose scaled form has that high
+// word, exponents, gaps, counts.
+var hints []uint64
+
+func (g *G) hint() (uint64, bool) {
+	if len(hints) == 0 || !g.chance(0.3) {
+		return 0, false
+	}
+	return hints[g.pick(len(hints))], true
+}
+
+// coefHint returns a coefficient c <= Cmax and a scale k such that c*10^k has the hinted value as its high
+// word (low word at an edge or random), or is the hint itself +-1.
+func (g *G) coefHint(h uint64) *big.Int {
+	h += uint64(g.pick(3)) - 1
+	if g.chance(0.2) {
+		return new(big.Int).SetUint64(h)
+	}
+	t := new(big.Int).Lsh(new(big.Int).SetUint64(h), 64)
+	switch g.pick(4) {
+	case 0:
+	case 1:
+		t.Add(t, new(big.Int).SetUint64(^uint64(0)))
+	case 2:
+		t.Add(t, new(big.Int).SetUint64(g.r.Uint64()>>uint(g.pick(64))))
+	default:
+		t.Add(t, new(big.Int).SetUint64(g.r.Uint64()))
+	}
+	if g.chance(0.3) { // the same in a 192- or 256-bit accumulator
+		t.Lsh(t, uint(64*(1+g.pick(2))))
+	}
+	for try := 0; try < 8; try++ {
+		k := g.pick(60)
+		c := new(big.Int).Quo(t, pow10(k))
+		if g.chance(0.5) {
+			c.Add(c, big.NewInt(1))
+		}
+		if c.Sign() > 0 && c.Cmp(cmax) <= 0 {
+			return c
+		}
+	}
+	c := new(big.Int).Set(t)
+	for c.Cmp(cmax) > 0 {
+		c.Quo(c, big.NewInt(10))
+	}
+	return c
+}
+
+func (g *G) pick(n int) int        { return g.r.Intn(n) }
 func (g *G) chance(p float64) bool { return g.r.Float64() < p }
 
 var interestingU64 = []uint64{0, 1, 2, 3, 4, 5, 9, 10, 11, 99, 100, 999, 1000, 9999, 10000, 10001, 100000000, 99999999,
@@ -31,6 +80,9 @@ var interestingU64 = []uint64{0, 1, 2, 3, 4, 5, 9, 10, 11, 99, 100, 999, 1000, 9
 	10_000_000_000_000_000_000, 9_999_999_999_999_999_999, 1<<63 - 1, 1 << 63, 1<<63 + 1, 1<<64 - 1, 1<<64 - 2, 1<<32 - 1, 1 << 32, 1<<31 - 1, 1 << 31}
 
 func (g *G) u64() uint64 {
+	if h, ok := g.hint(); ok {
+		return h + uint64(g.pick(5)) - 2
+	}
 	switch g.pick(6) {
 	case 0:
 		return interestingU64[g.pick(len(interestingU64))]
@@ -53,6 +105,16 @@ func (g *G) u64() uint64 {
 }
 
 func (g *G) i64() int64 {
+	if h, ok := g.hint(); ok {
+		v := int64(h) + int64(g.pick(5)) - 2
+		if g.chance(0.5) {
+			v = -v
+		}
+		if h < 20000 && g.chance(0.5) { // exponent-like: also relative to the bias
+			v += []int64{6176, -6176, 6111, -6111}[g.pick(4)]
+		}
+		return v
+	}
 	switch g.pick(5) {
 	case 0:
 		return int64(g.pick(41) - 20)
@@ -132,6 +194,9 @@ func (g *G) coefLen(n int) *big.Int {
 }
 
 func (g *G) coef() *big.Int {
+	if h, ok := g.hint(); ok {
+		return g.coefHint(h)
+	}
 	switch g.pick(10) {
 	case 0:
 		return big.NewInt(int64(g.pick(20)))
@@ -179,6 +244,24 @@ type dec struct{ lo, hi uint64 }
 func (d dec) String() string { return fmt.Sprintf("%016x%016x", d.hi, d.lo) }
 
 func (g *G) bexp() int {
+	if h, ok := g.hint(); ok && h < 20000 {
+		e := int(h) + g.pick(5) - 2
+		switch g.pick(4) {
+		case 0:
+			e = 6176 + e
+		case 1:
+			e = 6176 - e
+		case 2:
+			e = 12287 - e
+		}
+		if e < 0 {
+			e = 0
+		}
+		if e > 12287 {
+			e = 12287
+		}
+		return e
+	}
 	switch g.pick(8) {
 	case 0:
 		return 6176 + g.pick(81) - 40
@@ -324,6 +407,9 @@ func (g *G) related(x dec) dec {
 	case 2, 3: // chosen gap
 		gaps := []int{0, 1, 2, 3, 4, 7, 8, 15, 16, 17, 18, 19, 20, 26, 27, 28, 33, 34, 35, 36, 37, 38, 39, 40, 50, 100}
 		gap := gaps[g.pick(len(gaps))]
+		if h, ok := g.hint(); ok && h < 20000 {
+			gap = int(h) + g.pick(5) - 2
+		}
 		if g.chance(0.5) {
 			gap = -gap
 		}
